@@ -53,6 +53,24 @@ def k2 (t : Tokens) : String :=
       | _ => go fuel (i+1) r.rest acc
   " ".intercalate (go (s.length / 7 + 2) 0 s [])
 
+/-- K2 at the server: the outcomes of `recv1` over the stream decide what the server does – a
+delivered message (here: one naming an unbound fid) and a protocol error are both answered with
+Rlerror under the frame's tag; the first connection error ends the connection. -/
+def k2srv (t : Tokens) : String :=
+  let msize := t.nat "msize"
+  let s := t.bytes "stream"
+  let rec go (fuel : Nat) (s : Bytes) (acc : List String) : List String × Bool :=
+    match fuel with
+    | 0 => (acc, false)
+    | fuel+1 =>
+      let r := recv1 msize maxLen specRegistry s
+      match r.out with
+      | .connErr => (acc, true)
+      | .protoErr tag => go fuel r.rest (acc ++ [s!"{tag}:7"])
+      | .msg tag d _ => go fuel r.rest (acc ++ [if d.typ == 24 || d.typ == 120 || d.typ == 116 then s!"{tag}:7" else s!"{tag}:unmodelled"])
+  let (rs, ended) := go (s.length / 7 + 2) s []
+  s!"replies={",".intercalate rs} lost=0 ended={if ended then 1 else 0} extra=0"
+
 /-- K3: the monitor is segmentation independence itself – the expected outcomes are those of
 the plain byte string (`recv1` over the protocol table); the segmented model `recvSeg` is run
 on the actual chunking as well and must agree (cross-check of `Transport/Seg.lean`). -/
